@@ -44,7 +44,7 @@ L = dict(
 class Variant:
     def __init__(self, name, version, layout, magic=b'VBSP', l4d2=False, sprp=(5, 60), comma=True,
                  compress=(), game_compress=(), extra_game=True, revision=7, shapes=True,
-                 lump_versions=None, game_flags=None, lzma=False):
+                 lump_versions=None, game_flags=None, lzma=False, spice=None):
         self.name, self.version, self.layout, self.magic, self.l4d2 = name, version, layout, magic, l4d2
         self.sprp, self.comma = sprp, comma
         self.compress = tuple(compress)             # lump ids stored LZMA-compressed
@@ -53,6 +53,7 @@ class Variant:
         self.lump_versions = dict(lump_versions or {})
         self.game_flags = dict(game_flags or {})
         self.lzma = lzma
+        self.spice = spice       # name of a post-processing step of the lumps (SPICES)
 
     @property
     def vitamin(self):
@@ -93,7 +94,46 @@ VARIANTS = [
     Variant('v43-vitamin-lzma', 43, 'VITAMIN', magic=b'FART', sprp=(11, 80), comma=False,
             compress=(L['BRUSHSIDES'], L['NODES']), lzma=True),
 ]
-VARIANT_BY_NAME = {v.name: v for v in VARIANTS}
+VARIANTS.append(Variant('v25-chaos-frac', 25, 'CHAOS', sprp=(12, 80), comma=False, lump_versions={L['LEAFS']: 2},
+                        spice='chaos-fractional-bounds'))
+
+# Inputs OUTSIDE the domain the check claims (ASSUMPTIONS of p_c10): each reproduces an open known finding.
+SPICE_VARIANTS = [
+    Variant('spice-no-zero-vertex', 20, 'STD', sprp=(10, 72), spice='no-zero-vertex'),
+    Variant('spice-faceids-missing', 20, 'STD', sprp=(10, 72), spice='faceids-missing'),
+    Variant('spice-output-delay-digits', 20, 'STD', sprp=(10, 72), spice='output-delay-digits'),
+]
+VARIANT_BY_NAME = {v.name: v for v in VARIANTS + SPICE_VARIANTS}
+
+
+def _spice_chaos_frac(lumps, game, v):
+    lay = LAYOUTS[v.layout]
+    sz = struct.calcsize(lay['LEAF']); d = bytearray(lumps[L['LEAFS']])
+    for i, delta in ((1, -0.5), (2, 0.25)):
+        rec = list(struct.unpack_from(lay['LEAF'], d, sz * i)); rec[3] += delta; rec[8] += 0.75
+        struct.pack_into(lay['LEAF'], d, sz * i, *rec)
+    lumps[L['LEAFS']] = bytes(d)
+    sz = struct.calcsize(lay['NODE']); d = bytearray(lumps[L['NODES']])
+    rec = list(struct.unpack_from(lay['NODE'], d, 0)); rec[3] -= 0.25; rec[6] += 0.125
+    struct.pack_into(lay['NODE'], d, 0, *rec)
+    lumps[L['NODES']] = bytes(d)
+
+
+def _spice_no_zero_vertex(lumps, game, v):
+    lumps[L['VERTEXES']] = struct.pack('<fff', 1.0, 1.0, 1.0) + lumps[L['VERTEXES']][12:]
+
+
+def _spice_faceids_missing(lumps, game, v):
+    lumps[L['FACEIDS']] = b''
+
+
+def _spice_delay(lumps, game, v):
+    assert b'0.25' in lumps[L['ENTITIES']]
+    lumps[L['ENTITIES']] = lumps[L['ENTITIES']].replace(b'0.25', b'0.1234567')
+
+
+SPICES = {'chaos-fractional-bounds': _spice_chaos_frac, 'no-zero-vertex': _spice_no_zero_vertex,
+          'faceids-missing': _spice_faceids_missing, 'output-delay-digits': _spice_delay}
 
 
 # ----------------------------------------------------------------------------- helpers
@@ -494,4 +534,6 @@ def assemble(v: Variant, lumps, game) -> bytes:
 
 def build(v: Variant, rng):
     lumps, game, info = build_lumps(v, rng)
+    if v.spice:
+        SPICES[v.spice](lumps, game, v)
     return assemble(v, lumps, game), lumps, game, info
